@@ -258,6 +258,8 @@ def run(ctx):
 
 
 def replay(ctx, payload):
+    if translate.is_link_replay(payload) and not payload.get("failing_input"):
+        return translate.replay(ctx, payload, "C16")  # a replay file written for a broken translation tie
     c = payload.get("case") or payload.get("failing_input")
     g = do_case(ctx, c)
     for v in ctx.violations:
